@@ -224,19 +224,55 @@ func runC14(c *Ctx) {
 			})
 			c.Expect("C14-R8", "additions to the batch in "+rel, len(adds), 1)
 			ok := guardBlk.Valid()
-			for _, a := range adds {
-				if !g.Dominates(guardBlk, a.Loc) {
-					ok = false
+			// every path from the top of the sequence loop's body to an addition has seen "limit not
+			// reached": the limit test false, or no limit set (numPredict > 0 false)
+			notReached := func(a ast.Expr, v bool) bool {
+				if isLimitTest(a) {
+					return !v
 				}
-				// and the addition is on the guard's false edge
-				onFalse := false
-				for _, at := range g.Atoms2(a.Loc) {
-					if guardBlk.Valid() && at.Blk == guardBlk.B && !at.Edge {
-						onFalse = true
+				if be, isB := a.(*ast.BinaryExpr); isB && selName(be.X) == "numPredict" {
+					if k, isC := core.ConstInt(info, be.Y); isC && k == 0 {
+						return (be.Op == token.GTR && !v) || (be.Op == token.LEQ && v)
 					}
 				}
-				if !onFalse {
+				return false
+			}
+			for _, a := range adds {
+				// the loop over sequences: the innermost loop around the addition that also contains the limit test
+				var body *ast.BlockStmt
+				ast.Inspect(f.Body, func(x ast.Node) bool {
+					var b *ast.BlockStmt
+					switch l := x.(type) {
+					case *ast.RangeStmt:
+						b = l.Body
+					case *ast.ForStmt:
+						b = l.Body
+					}
+					if b != nil && within(b, a.Node) && within(b, limitRm.Node) {
+						body = b
+					}
+					return true
+				})
+				if body == nil || len(body.List) == 0 {
 					ok = false
+					continue
+				}
+				start := g.Locate(body.List[0])
+				paths, complete := g.PathsTo(core.Loc{B: start.B, I: start.I - 1}, a.Loc, 20000)
+				if !complete || len(paths) == 0 {
+					ok = false
+					continue
+				}
+				for _, p := range paths {
+					seen := false
+					for _, st := range p {
+						if e, isE := st.Node.(ast.Expr); isE && st.Edge >= 0 && impliesAtom(e, st.Edge == 0, notReached) {
+							seen = true
+						}
+					}
+					if !seen {
+						ok = false
+					}
 				}
 			}
 			// the sampling block must come after the model ran on this batch, so every sampled token passes the test before the next batch
